@@ -344,11 +344,14 @@ def write_harness(wd, insts, certs, nchunks=16):
 
 
 def build_harness(wd, files, compiler, std, tag):
+    """compiler "exact" = clang++-14 with the exact-count UBSan handlers (every undefined operation or unsigned
+    wrap is counted for the input that executes it; the full runtimes report a source location only once)."""
     objs = []
+    exact = compiler == "exact"
 
     def comp(src):
         obj = src[:-3] + f".{tag}.o"
-        rc, out = cxx(src, obj, compiler=compiler, std=std, extra=["-c"])
+        rc, out = cxx(src, obj, compiler=compiler, std=std, extra=["-c"], san="exact" if exact else True)
         return (src, obj, rc, out)
     res = pmap(comp, files)
     for src, obj, rc, out in res:
@@ -356,9 +359,11 @@ def build_harness(wd, files, compiler, std, tag):
             return None, {"src": src, "output": out[-4000:]}
         objs.append(obj)
     exe = os.path.join(wd, f"harness_{tag}")
-    from vlib import SAN_CLANG, SAN_GCC
-    san = SAN_CLANG if compiler.startswith("clang") else SAN_GCC
-    rc, out, err = run([compiler] + san + objs + ["-o", exe])
+    from vlib import san_flags, EXACT, EXACT_HANDLERS
+    if exact:
+        rc, out, err = run([EXACT] + san_flags(EXACT, "exact") + objs + [EXACT_HANDLERS, "-o", exe])
+    else:
+        rc, out, err = run([compiler] + san_flags(compiler) + objs + ["-o", exe])
     if rc != 0:
         return None, {"src": "link", "output": (out + err)[-4000:]}
     return exe, None
@@ -423,10 +428,10 @@ def explore(prop, tier, seed, rng, wd):
     # configurations: g++ c++14 always; clang (adds unsigned-overflow detection) with a seed-chosen standard
     configs = [("g++", "c++14", "g14")]
     std2 = ["c++14", "c++17", "c++20"][seed % 3]
-    configs.append(("clang++-14", std2, "c" + std2[-2:]))
+    configs.append(("exact", std2, "x" + std2[-2:]))
     if tier == "thorough":
         configs = [("g++", "c++14", "g14"), ("g++", "c++20", "g20"), ("clang++-14", "c++14", "c14"),
-                   ("clang++-14", "c++17", "c17")]
+                   ("clang++-14", "c++17", "c17"), ("exact", "c++14", "x14")]
     sweep_bits = 16 if tier == "quick" else 32
     npts = 150 if tier == "quick" else 600
     pts = {i["id"]: sample_points(rng, i, certs[i["id"]], npts if INT_TYPES[i["T"]][1] > sweep_bits else npts // 3)
@@ -453,7 +458,7 @@ def explore(prop, tier, seed, rng, wd):
                 "class": "harness-build", "rec": {"kind": "build", "config": f"{compiler} {std}"},
                 "no_input": True, "broken": "correspondence: Au.compiles vs get_value static_asserts", "detail": err})
             continue
-        stats["configs"].append(f"{compiler} -std={std}")
+        stats["configs"].append(f"{compiler} -std={std}" if compiler != "exact" else f"exact -std={std} (clang++-14, exact-count UBSan handlers)")
         lines = []
         thorough32 = []
         for i in insts:
